@@ -206,6 +206,16 @@ class Recorder:
         return False
 
 
+def _name(o):
+    """name under which an operator of the result is looked up in the gate set: a classically controlled operator counts
+    as its base (the transform decomposes the base), a mid-circuit measurement is the documented 'MidMeasure' entry"""
+    if type(o).__name__ == "Conditional":
+        return _name(o.base)
+    if type(o).__name__.startswith("MidMeasure"):
+        return "MidMeasure"
+    return o.name
+
+
 def _counts(ops):
     cnt = {}
     for o in ops:
@@ -349,7 +359,11 @@ def _cols(n, nw):
 
 
 def run(tier, seed):
+    import time
+    t0 = time.time()
+    phase = {}
     sets, opts, gres = configs()
+    phase["cfggen"] = round(time.time() - t0, 1)
     cases = gen_cases(tier, seed, sets, opts)
     viol, traces, tmeta = [], [], []
     ecases = {4: [], 5: []}
@@ -377,7 +391,7 @@ def run(tier, seed):
         stop = (lambda op: len(op.wires) <= c["stopk"]) if c["stopk"] else (lambda op: False)
         out = obs["out"]
         t = {"kind": "decompose", "c": c, "rel": case["rel"], "err": obs["err"], "warned": obs["warned"], "graphwarn": obs["graphwarn"],
-             "out": [{"name": o.name, "stop": bool(stop(o))} for o in out.operations] if out is not None else [],
+             "out": [{"name": _name(o), "stop": bool(stop(o))} for o in out.operations] if out is not None else [],
              "min": [repr(m) for m in tape.measurements], "mout": [repr(m) for m in out.measurements] if out is not None else
              [repr(m) for m in tape.measurements], "est": [], "act": [], "exact": False}
         traces.append(t)
@@ -467,6 +481,7 @@ def run(tier, seed):
                 done = True
         if not done:
             skip("input not encodable")
+    phase["apply"] = round(time.time() - t0 - phase["cfggen"], 1)
     # ---- negative controls
     neg_t = []
     for i in range(0, len(traces), max(1, len(traces) // 20)):
@@ -494,6 +509,7 @@ def run(tier, seed):
     (wd / "traces.json").write_text(json.dumps(traces))
     r = lib.run_tlc("Trace_Decompose", lib.cfg(constants={"NTRACES": len(traces)}), wd, env={"TRACE_FILE": str(wd / "traces.json")})
     lib.require_ok(r, "Trace_Decompose")
+    phase["tlc_trace"] = round(r.wall_s, 1)
     tv = {t[1] - 1: t[2] for t in r.tuples if t[0] == "V"}
     if len(tv) != len(traces):
         raise lib.MachineryError(f"Trace_Decompose verdicts not total: {len(tv)} of {len(traces)}")
@@ -523,6 +539,7 @@ def run(tier, seed):
         if not ecases[lv]:
             continue
         ev, emitted, s_ = rel.validate("C12", ecases[lv], lv, name=f"rel{lv}")
+        phase[f"tlc_rel{lv}"] = round(s_["wall_s"], 1)
         est_["distinct"] += s_["distinct"]
         est_["generated"] += s_["generated"]
         tot_neg_e += len(neg_e[lv])
@@ -572,7 +589,7 @@ def run(tier, seed):
                    "seeded circuits of <= 4(+1) operators on 2-4 wires; non-trivial = distinct (gate set, circuit, options) whose output "
                    "differs from the input",
            "samples": samples, "exhaustive": False, "exact_by_tlc": n_exact, "bridged_float": n_bridge,
-           "negative_controls_rejected": nneg_t + nneg_e, "resource_keys": len(keys), **st}
+           "negative_controls_rejected": nneg_t + nneg_e, "resource_keys": len(keys), "phase_wall_s": phase, **st}
     return CheckResult(coverage=cov, violations=viol, assumptions=[
         "operator semantics = reference table Gates.tla (+ adjoint / power / controlled arithmetic); input angles are multiples of pi/2 so that "
         "emitted half / quarter angles stay on the lattice (M=4/5); other outputs are compared numerically (1e-7) with TLC's exact U(in)",
